@@ -139,9 +139,12 @@ def corpus(test_strings, seed, n_random=120):
 def run_gate(ast, replay, test_strings, seed=0, n_random=120, hash_order='insertion'):
     """returns dict(ok, checked, first_mismatch)"""
     m = Machine(ast, hash_order=hash_order)
-    checked = 0; order_dependent = 0; approx_skipped = 0
+    checked = 0; order_dependent = 0; approx_skipped = 0; native_panics = []
     for docs in corpus(test_strings, seed, n_random):
-        native = replay.ask({'op': 'render', 'docs': docs, 'options': OPTION_SETS})
+        native = replay.ask({'op': 'render', 'docs': docs, 'options': OPTION_SETS}, timeout=30)
+        if 'panic' in native or 'crash' in native:
+            # the native library panics / aborts / hangs on a corpus document: not an encoder question (C07 reports it as a violation)
+            native_panics.append({'docs': docs, 'native': native}); continue
         scripts = []
         for d in docs:
             evs = replay.ask({'op': 'events', 'doc': d})
@@ -162,9 +165,9 @@ def run_gate(ast, replay, test_strings, seed=0, n_random=120, hash_order='insert
             if len(outs) > 1:
                 diff = None; order_dependent += 1
         if diff is not None:
-            return {'ok': False, 'checked': checked, 'order_dependent': order_dependent, 'first_mismatch': {'docs': docs, 'diff': diff}}
+            return {'ok': False, 'checked': checked, 'order_dependent': order_dependent, 'approx_skipped': approx_skipped, 'native_panics': native_panics[:3], 'first_mismatch': {'docs': docs, 'diff': diff}}
         checked += 1
-    return {'ok': True, 'checked': checked, 'order_dependent': order_dependent, 'first_mismatch': None}
+    return {'ok': True, 'checked': checked, 'order_dependent': order_dependent, 'approx_skipped': approx_skipped, 'native_panics': native_panics[:3], 'first_mismatch': None}
 
 # ---------------------------------------------------------------------------------------------- byte-level corpus (native only; not solver-decided)
 BASE_DOCS = ['<a x="1" y="2"><b>t</b><b><c/></b><!-- c --><![CDATA[d]]></a>', '<?xml version="1.0"?>\n<r><p a="1"/><p><q/></p></r>',
